@@ -333,7 +333,7 @@ pub proof fn lemma_finish_ptr(d: SuffixDict, d0: SuffixDict, c0: Seq<u8>, c1: Se
         slots_ok(d, d0, c0, p, off0, k, e),
     ensures dict_ok(d, c1), name_end(c1, c0.len() as int) == Some(c1.len() as int), eq_ci(name_exp(c1, c0.len() as int), p.subrange(off0, e)),
         // entries faithful at entry that avoided the window still do; so do the ones remembered during this call, provided the name pointed to does
-        w1 <= c0.len() && avoid(c0, q, c0.len() as int, q, 16, 0, w0, w1) && dict_avoid(d0, c0, w0, w1) ==> dict_avoid(d, c1, w0, w1),
+        w1 <= c0.len() && avoid(c0, q, c0.len() as int, q, 16, 0, w0, w1) && dict_avoid(d0, c0, w0, w1) ==> dict_avoid(d, c1, w0, w1) && avoid(c1, c0.len() as int, c1.len() as int, c0.len() as int, 16, 0, w0, w1),
 {
     let x = c0.len() + (k - off0); let pre = c0 + p.subrange(off0, k);
     assert forall|j: int| 0 <= j < c0.len() implies c1[j] == c0[j] by { assert(c1.subrange(0, x)[j] == pre[j]); }
@@ -379,7 +379,7 @@ pub proof fn lemma_boundary_root(c0: Seq<u8>, c1: Seq<u8>, p: Seq<u8>, off0: int
 pub proof fn lemma_finish_root(d: SuffixDict, d0: SuffixDict, c0: Seq<u8>, c1: Seq<u8>, p: Seq<u8>, off0: int, e: int, w0: int, w1: int)
     requires pcs_walk(p, off0, 0) == Some(e), c1 == c0 + p.subrange(off0, e), slots_ok(d, d0, c0, p, off0, e, e),
     ensures dict_ok(d, c1), name_end(c1, c0.len() as int) == Some(c1.len() as int), eq_ci(name_exp(c1, c0.len() as int), p.subrange(off0, e)),
-        w1 <= c0.len() && dict_avoid(d0, c0, w0, w1) ==> dict_avoid(d, c1, w0, w1),
+        w1 <= c0.len() && dict_avoid(d0, c0, w0, w1) ==> dict_avoid(d, c1, w0, w1) && avoid(c1, c0.len() as int, c1.len() as int, c0.len() as int, 16, 0, w0, w1),
 {
     lemma_pcs_bounds(p, off0, 0);
     lemma_boundary_root(c0, c1, p, off0, off0, e, w0, w1);
@@ -449,3 +449,18 @@ pub proof fn lemma_dict_ext_w(d: SuffixDict, c0: Seq<u8>, c1: Seq<u8>, w0: int, 
         lemma_enc_ok_extw(c0, c1, d.view()[s].1, d.view()[s].0, w0, w1);
     }
 }
+
+// a valid name that does not read the window keeps its end and expansion when the output grows / when the window is rewritten
+pub proof fn lemma_name_keep(c: Seq<u8>, c2: Seq<u8>, q: int, w0: int, w1: int)
+    requires name_end(c, q).is_some(), c.len() <= c2.len(), forall|i: int| 0 <= i < c.len() ==> c2[i] == c[i]
+    ensures name_end(c2, q) == name_end(c, q), name_exp(c2, q) == name_exp(c, q),
+        avoid(c2, q, c2.len() as int, q, 16, 0, w0, w1) == avoid(c, q, c.len() as int, q, 16, 0, w0, w1)
+{
+    lemma_hops_bounds(c, q, c.len() as int, q, 16, 0);
+    lemma_exp_len(c, q, c.len() as int, q, 16, 0, None);
+    lemma_walk_transport(c, c2, q, c.len() as int, c2.len() as int, q, 16, 16, 0, 0, None, w0, w1);
+}
+pub proof fn lemma_name_window(c: Seq<u8>, c2: Seq<u8>, q: int, w0: int, w1: int)
+    requires name_end(c, q).is_some(), avoid(c, q, c.len() as int, q, 16, 0, w0, w1), c2.len() == c.len(), forall|i: int| 0 <= i < c.len() && !(w0 <= i < w1) ==> c2[i] == c[i]
+    ensures name_end(c2, q) == name_end(c, q), name_exp(c2, q) == name_exp(c, q)
+{ lemma_walk_window(c, c2, q, c.len() as int, q, 16, 0, None, w0, w1); }
